@@ -413,7 +413,7 @@ impl Ctx {
     /// Is the known finding with this signature still listed as open (status "known")?
     /// Generators use this to steer away from the trigger and count `excluded`.
     pub fn avoid(&self, signature: &str) -> bool {
-        self.is_known(signature)
+        self.is_known(signature) || load_all_known().iter().any(|k| k.status == "known" && k.signature == signature)
     }
 
     fn sub_mut(&mut self, sub: &str) -> &mut SubStats {
@@ -767,6 +767,11 @@ fn merge(into: &mut SubStats, from: SubStats) {
         }
     }
     into.nt_seen += from.nt_seen;
+}
+
+pub fn load_all_known() -> Vec<KnownFinding> {
+    let path = Path::new(VERIF_ROOT).join("known_findings.json");
+    std::fs::read_to_string(&path).ok().and_then(|t| serde_json::from_str(&t).ok()).unwrap_or_default()
 }
 
 pub fn load_known(prop: &str) -> Vec<KnownFinding> {
